@@ -945,6 +945,14 @@ func corpus() []desc {
 		{T: "Set", K: []byte("Connection"), V: []byte("close")}, {T: "Set", K: []byte("Connection"), V: []byte("x")}, {T: "SetContentLength", N: -1}, {T: "Set", K: []byte("C"), V: []byte("3")}, {T: "SetContentLength", N: 3}}})
 	c = append(c, desc{Kind: "req", Ops: []op{{T: "SetContentLength", N: -1}, {T: "Set", K: []byte("A"), V: []byte("1")}, {T: "Set", K: []byte("B"), V: []byte("2")}, {T: "SetContentLength", N: 7},
 		{T: "DisableSpecialHeader"}, {T: "Add", K: []byte("Cookie"), V: []byte("a=1; b=2")}, {T: "Add", K: []byte("cookie"), V: []byte("c=3")}, {T: "SetCookie", K: []byte("a"), V: []byte("9")}, {T: "EnableSpecialHeader"}}})
+	// the close connection option: case-insensitive, inside a comma list, spaces stripped (hasHeaderValue)
+	for _, v := range []string{"Close", "CLOSE", "keep-alive, close", "close,keep-alive", " close ", "close,", ",close", ", ,close", "closed", "clos", "keep-alive,  Close  ,x", "\tclose", "close\r\n", "upgrade"} {
+		c = append(c, desc{Kind: "resp", Ops: []op{{T: "Set", K: []byte("Connection"), V: []byte("upgrade")}, {T: "Set", K: []byte("X"), V: []byte("1")}, {T: "Add", K: []byte("connection"), V: []byte(v), Vr: 1}}},
+			desc{Kind: "req", Ops: []op{{T: "Add", K: []byte("Connection"), V: []byte("upgrade")}, {T: "Set", K: []byte("X"), V: []byte("1")}, {T: "Set", K: []byte("CONNECTION"), V: []byte(v), Vr: 2}}})
+	}
+	// a Content-Length given through Set/Add replaces an earlier chunked Transfer-Encoding
+	c = append(c, desc{Kind: "resp", Ops: []op{{T: "Set", K: []byte("A"), V: []byte("1")}, {T: "SetContentLength", N: -1}, {T: "Set", K: []byte("B"), V: []byte("2")}, {T: "Set", K: []byte("content-length"), V: []byte("5")}, {T: "Add", K: []byte("Content-Length"), V: []byte("x")}}},
+		desc{Kind: "req", Ops: []op{{T: "Set", K: []byte("A"), V: []byte("1")}, {T: "SetContentLength", N: -1}, {T: "Set", K: []byte("B"), V: []byte("2")}, {T: "Add", K: []byte("Content-Length"), V: []byte("7"), Vr: 3}}})
 	for _, sc := range statusCodes {
 		c = append(c, desc{Kind: "respwrite", Body: []byte("body\r\n\r\nHTTP/1.1 200 OK\r\n\r\n"), Ops: []op{{T: "SetStatusCode", N: sc}}})
 		c = append(c, desc{Kind: "respwrite", SkipBody: true, Body: []byte("b"), Ops: []op{{T: "SetStatusCode", N: sc}, {T: "Set", K: []byte("Content-Length"), V: []byte("99")}}})
